@@ -88,6 +88,30 @@ PROPS = {
         'rule': 'stable programs rebuilt under changing version maps (JSON-equal and unequal variants); '
                 'non-trivial = the trace has both a reuse and a re-execution of a recorded call',
     },
+    'C08': {
+        'title': 'At most one execution per key',
+        'units': [('dup', 4000, 50000), ('general', 500, 8000)],
+        'owned': {'DuplicateRejected', 'SetupErrClass', 'SetupFailExpected', 'NoSpuriousException',
+                  'ReuseOnlyIfValid', 'ExecOnlyIfJustified', 'PersistedEqualsReturned', 'ReturnMatches',
+                  'FinalTreeMatches', 'OutputsNotRewritten', 'TargetFileAfterOk', 'OutcomeMatches',
+                  'ExceptionClassMatches'},
+        'nontrivial': lambda st, sc: st['sfail'] > 0,
+        'rule': 'two targets / one subbuild key so that the same path or key is requested repeatedly: same '
+                'level, nested, inside and after reused subtrees, after a failed first occurrence, across '
+                'rebuilds; non-trivial = at least one rejected duplicate (setup failure) in the trace',
+    },
+    'C11': {
+        'title': 'No aliasing',
+        'units': [('mutate', 4000, 50000), ('regress', 0, 0)],
+        'owned': {'PersistedEqualsReturned', 'ExecOnlyIfJustified', 'ReuseOnlyIfValid', 'ReturnMatches',
+                  'ArgsRoundTripped', 'DuplicateRejected', 'FinalTreeMatches', 'AnswerMatches',
+                  'NoSpuriousException', 'OutputsNotRewritten'},
+        'nontrivial': lambda st, sc: st['reuse'] > 0,
+        'rule': 'every value-carrying edge (container args/kwargs in, return values out - fresh and served '
+                'from the cache -, list_dir/walk results) is mutated in place by the interpreted user code, '
+                'followed by the rest of the build and unchanged rebuilds; non-trivial = a value was served '
+                'from a record after mutations happened',
+    },
     'C10': {
         'title': 'build_file contract',
         'units': [('bfcontract', 2000, 30000), ('probe', 300, 5000), ('regress', 0, 0)],
@@ -102,7 +126,7 @@ PROPS = {
     },
     'C12': {
         'title': 'clean',
-        'units': [('clean', 2500, 40000), ('foreign', 300, 5000)],
+        'units': [('clean', 2000, 30000), ('rebuildclean', 2500, 40000), ('foreign', 300, 5000)],
         'owned': {'CleanExact', 'CleanNoCacheNoEffect', 'ForeignUntouched', 'NoSpuriousException',
                   'ReuseOnlyIfValid'},
         'nontrivial': lambda st, sc: st['clean'] > 0,
@@ -111,7 +135,7 @@ PROPS = {
     },
     'C13': {
         'title': 'Comparison modes',
-        'units': [('cmp', 2500, 40000)],
+        'units': [('cmp', 2000, 30000), ('cmpback', 3000, 40000)],
         'owned': {'ExecOnlyIfJustified', 'ReuseOnlyIfValid', 'OutputsNotRewritten'},
         'nontrivial': lambda st, sc: st['reuse'] > 0 and st['invfound'] > 0,
         'rule': 'touch / rewrite-keeping-size-and-mtime / rewrite of inputs and outputs between builds, reads '
